@@ -21,6 +21,7 @@ import (
 	"io"
 	"log"
 	"os"
+	"strings"
 	"sync"
 
 	"qchen.fun/fatchoy/x/uuid"
@@ -130,6 +131,100 @@ func (s script) nano(i int, t int64) int64 {
 	return nanos(t) + off
 }
 
+// genRun is one generator being driven through its script with the real code.
+type genRun struct {
+	s    script
+	rd   []int64
+	pos  int
+	sf   *uuid.Snowflake
+	outs []outcome
+	done bool
+}
+
+// newGenRun creates the generator (NewSnowflake, or uuid.Init in API mode) under the reading t0.
+func newGenRun(s script) *genRun {
+	g := &genRun{s: s, rd: s.readings()}
+	uuid.VerifClock = func() int64 { return s.nano(-1, s.t0) }
+	if s.callers == -1 {
+		// through the package-level API: Init(workerId, store) creates the global generator,
+		// NextUUID() is MustNext() on it (it panics with the error)
+		if err := uuid.Init(uint16(s.mid), okStore{}); err != nil {
+			panic(err)
+		}
+	} else {
+		g.sf = uuid.NewSnowflake(uint16(s.mid))
+	}
+	return g
+}
+
+// step makes one call of Next; false when the script is used up (or the generator is dead).
+func (g *genRun) step() bool {
+	if g.done || g.pos >= len(g.rd) {
+		return false
+	}
+	s, sf := g.s, g.sf
+	uuid.VerifClock = func() int64 {
+		if g.pos >= len(g.rd) {
+			panic(clockDry{})
+		}
+		t := g.rd[g.pos]
+		g.pos++
+		return s.nano(g.pos-1, t)
+	}
+	before := g.pos
+	var id int64
+	var err error
+	var panicked bool
+	var val interface{}
+	if nextWatcher == nil {
+		nextWatcher = NewWatcher(nextFrame)
+	}
+	if nextWatcher.Call(func() {
+		panicked, val = Catch(func() {
+			if sf != nil {
+				id, err = sf.Next()
+			} else {
+				id = uuid.NextUUID()
+			}
+		})
+	}) {
+		// the call never returns: parked on the generator's mutex, nobody inside Next
+		nextWatcher = nil
+		g.outs = append(g.outs, outcome{kind: 6})
+		g.done = true
+		return false
+	}
+	if e, ok := val.(error); panicked && ok && sf == nil {
+		if _, dry := val.(clockDry); !dry {
+			panicked, err = false, e
+		}
+	}
+	o := outcome{consumed: int64(g.pos - before)}
+	switch {
+	case panicked:
+		if _, dry := val.(clockDry); dry {
+			o.kind = 4
+		} else {
+			o.kind = 5
+		}
+	case err == nil:
+		o.kind, o.value = 0, id
+	case err == uuid.ErrTimeUnitOverflow:
+		o.kind = 1
+	case err == uuid.ErrClockGoneBackwards:
+		o.kind = 2
+	case err == uuid.ErrUUIDIntOverflow:
+		o.kind = 3
+	default:
+		o.kind = 5
+	}
+	g.outs = append(g.outs, o)
+	if panicked {
+		g.done = true
+	}
+	return !g.done
+}
+
 // runGen drives one generator through its script with the real code.
 func runGen(s script) (auto int64, outs []outcome) {
 	if s.callers > 1 {
@@ -138,81 +233,28 @@ func runGen(s script) (auto int64, outs []outcome) {
 	clockMu.Lock()
 	defer clockMu.Unlock()
 	defer func() { uuid.VerifClock = nil }()
-	auto = autoID
-	rd := s.readings()
-	pos := 0
-	uuid.VerifClock = func() int64 { return s.nano(-1, s.t0) }
-	var sf *uuid.Snowflake
-	if s.callers < 0 {
-		// through the package-level API: Init(workerId, store) creates the global generator,
-		// NextUUID() is MustNext() on it (it panics with the error)
-		if err := uuid.Init(uint16(s.mid), okStore{}); err != nil {
-			panic(err)
-		}
-	} else {
-		sf = uuid.NewSnowflake(uint16(s.mid))
+	g := newGenRun(s)
+	for g.step() {
 	}
-	uuid.VerifClock = func() int64 {
-		if pos >= len(rd) {
-			panic(clockDry{})
-		}
-		t := rd[pos]
-		pos++
-		return s.nano(pos-1, t)
-	}
-	for pos < len(rd) {
-		before := pos
-		var id int64
-		var err error
-		var panicked bool
-		var val interface{}
-		if nextWatcher == nil {
-			nextWatcher = NewWatcher(nextFrame)
-		}
-		if nextWatcher.Call(func() {
-			panicked, val = Catch(func() {
-				if sf != nil {
-					id, err = sf.Next()
-				} else {
-					id = uuid.NextUUID()
-				}
-			})
-		}) {
-			// the call never returns: parked on the generator's mutex, nobody inside Next
-			nextWatcher = nil
-			outs = append(outs, outcome{kind: 6})
-			break
-		}
-		if e, ok := val.(error); panicked && ok && sf == nil {
-			if _, dry := val.(clockDry); !dry {
-				panicked, err = false, e
-			}
-		}
-		o := outcome{consumed: int64(pos - before)}
-		switch {
-		case panicked:
-			if _, dry := val.(clockDry); dry {
-				o.kind = 4
-			} else {
-				o.kind = 5
-			}
-		case err == nil:
-			o.kind, o.value = 0, id
-		case err == uuid.ErrTimeUnitOverflow:
-			o.kind = 1
-		case err == uuid.ErrClockGoneBackwards:
-			o.kind = 2
-		case err == uuid.ErrUUIDIntOverflow:
-			o.kind = 3
-		default:
-			o.kind = 5
-		}
-		outs = append(outs, o)
-		if panicked {
-			break
+	return autoID, g.outs
+}
+
+// runInterleaved: two generators alive at once in one goroutine, their calls alternating (each
+// has its own clock script): nothing of one may leak into the other through package state.
+func runInterleaved(a, b script) (outsA, outsB []outcome) {
+	clockMu.Lock()
+	defer clockMu.Unlock()
+	defer func() { uuid.VerifClock = nil }()
+	ga := newGenRun(a)
+	gb := newGenRun(b)
+	for moreA, moreB := true, true; moreA || moreB; {
+		moreA = ga.step()
+		moreB = gb.step()
+		if (a.jseed+b.jseed)%3 == 0 { // uneven alternation
+			moreA = ga.step() || moreA
 		}
 	}
-	return
+	return ga.outs, gb.outs
 }
 
 func obsSx(auto int64, outs []outcome) Sx {
@@ -241,6 +283,12 @@ type result struct {
 func runScripts(ss []script) ([]result, Sx) {
 	res := make([]result, len(ss))
 	obs := make([]Sx, len(ss))
+	if len(ss) == 2 && ss[0].callers == -2 && ss[1].callers == -2 {
+		oa, ob := runInterleaved(ss[0], ss[1])
+		res[0], res[1] = result{autoID, oa}, result{autoID, ob}
+		obs[0], obs[1] = obsSx(autoID, oa), obsSx(autoID, ob)
+		return res, ListOf(obs)
+	}
 	for i, s := range ss {
 		a, o := runGen(s)
 		res[i] = result{a, o}
@@ -284,7 +332,11 @@ func goCheck(ss []script, res []result) (string, bool) {
 		rd := s.readings()
 		nonneg := s.t0 >= 0
 		inrange := s.t0 >= 0 && s.t0 <= maxTU
+		sane := s.t0 >= -(1 << 39) // below that the shifted time wraps: the field sentences do not apply
 		for _, t := range rd {
+			if t < -(1 << 39) {
+				sane = false
+			}
 			if t < 0 {
 				nonneg, inrange = false, false
 			}
@@ -329,7 +381,7 @@ func goCheck(ss []script, res []result) (string, bool) {
 				t := (v >> (seqBits + machBits)) & (1<<timeBits - 1)
 				b := v >> (seqBits + machBits + timeBits)
 				_ = sq
-				if t != final || m != eff&(1<<machBits-1) || (nonneg && b != nback) {
+				if sane && (t != final || m != eff&(1<<machBits-1) || (nonneg && b != nback)) {
 					return "fields", false
 				}
 				if v <= prev {
@@ -494,6 +546,12 @@ func (g *tgen) trajectory(style int) (t0 int64, clk [][2]int64) {
 			g.out.Count("step:range-edge")
 		case style == 5:
 			t = -int64(r.Range(0, 100000))
+			if r.Chance(1, 3) {
+				// around and below -2^39 units: the shifted time wraps in int64 (the model
+				// wraps too; the decode sentences do not speak about such clocks)
+				t = r.PickI64(-(1 << 39), -(1<<39)-1, -(1<<39)+1, -600000000000, -900000000000)
+				g.out.Count("step:far-negative")
+			}
 			push(t, int64(r.Range(1, 3)))
 			g.out.Count("step:negative")
 		default:
@@ -507,7 +565,16 @@ func (g *tgen) trajectory(style int) (t0 int64, clk [][2]int64) {
 
 var styleName = []string{"forward", "rollback3", "rollbacks", "stall", "edge", "outofrange"}
 
+// focus: VERIF_FOCUS_KINDS (set by bin/check's extended search) names the kinds of cases on
+// which the correspondence broke; the run then emits those kinds only, and more of them.
+var focus = map[string]bool{}
+
+func want(kind string) bool { return len(focus) == 0 || focus[kind] }
+
 func (g *tgen) emit(kind string, ss []script) {
+	if !want(kind) {
+		return
+	}
 	for i := range ss {
 		if ss[i].jseed == 0 && g.rng.Chance(3, 4) {
 			ss[i].jseed = int64(g.rng.Next()>>2) | 1
@@ -544,9 +611,18 @@ func machineIDs(r *Rng) []int64 {
 func gen(a Args, out *Out) {
 	g := &tgen{rng: NewRng(a.Seed), out: out}
 	r := g.rng
+	for _, k := range strings.Split(os.Getenv("VERIF_FOCUS_KINDS"), ",") {
+		if k != "" && k != "corpus" && k != "replay" {
+			focus[k] = true
+		}
+	}
 	ntraj := 240
 	if a.Thorough() {
 		ntraj = 2400
+	}
+	if len(focus) > 0 {
+		out.Note("focused on kinds %v", focus)
+		ntraj *= 3
 	}
 	// single generators: every style x the boundary machine ids
 	for k := 0; k < ntraj; k++ {
@@ -632,10 +708,16 @@ func gen(a Args, out *Out) {
 		default:
 			m2 = int64(r.Range(1, 65535))
 			g.emit("pair-random", []script{{m1, t0, clk, 0, 0}, {m2, t0, clk, 0, 0}})
+			// the same two generators alive at once, calls alternating, each on its own clock
+			t1, clk1 := g.trajectory(k % 3)
+			g.emit("pair-interleaved", []script{{m1, t0, clk, -2, 0}, {m2, t1, clk1, -2, 0}})
 		}
 	}
 	// Go-side sweep over every machine id: a short trajectory each (quick), 8 trajectories
 	// including rollbacks each (thorough; the stall/edge styles are sampled, they sleep)
+	if len(focus) > 0 && !focus["sweep"] && !focus["all-machines"] {
+		return
+	}
 	per := 3
 	if a.Thorough() {
 		per = 8
